@@ -540,7 +540,10 @@ def _pat(rng, d=2):
     return Exists(rng.randint(0, 2), _pat(rng, d - 1))
 
 def _module(rng, depth):
-    m = ProofExp(axioms=[_pat(rng) for _ in range(rng.randint(0, 3))], claims=[])
+    axs = [_pat(rng) for _ in range(rng.randint(0, 3))]
+    if axs and rng.random() < 0.3:
+        axs.append(axs[0])                       # the same axiom declared twice (also arises from diamond imports)
+    m = ProofExp(axioms=axs, claims=[])
     if depth > 0:
         for _ in range(rng.randint(0, 2)):
             m._submodules.append(_module(rng, depth - 1))
@@ -574,6 +577,11 @@ def _c03_modules(seed, n):
                     m.execute_gamma_phase(r); m.execute_claims_phase(r, False)
             except BaseException as e:
                 return ('fail', 'publishing raises %s: %s' % (type(e).__name__, e), repr(_declared(m)), repr(claims), optimize, case)
+            n_ax = sum(1 for k, _ in r.journal if k == 'axiom')
+            held = [t for t in r.memory[:n_ax]]
+            if [getattr(t, 'conclusion', None) for t in held] != [p for k, p in r.journal if k == 'axiom'] and not optimize:
+                return ('fail', 'after the gamma phase the tracker memory is %r, the machine holds one entry per published axiom: %r' % (held, [p for k, p in r.journal if k == 'axiom']),
+                        repr([len(s._submodules) for s in m._submodules]), repr(claims), optimize, case)
             if r.journal != want:
                 return ('fail', 'published %r, declared %r' % (r.journal, want), repr([len(s._submodules) for s in m._submodules]), repr(claims), optimize, case)
     return ('ok', n)
